@@ -92,9 +92,17 @@ pub fn run_batch(
     files: &[SimFile],
     ops: &[(Op, Option<usize>)],
     rng: &mut Rng,
-    pct: bool,
+    policy: usize,
     step0: usize,
 ) -> SchedResult {
+    let pct = policy == 1;
+    // policy 2: one kind of backend request is starved: it completes only when nothing else
+    // can happen (late hole punches, late syncs, late reads, late writes)
+    let starve: Option<crate::sim::Kind> = if policy == 2 {
+        Some(*rng.pick(&[crate::sim::Kind::Punch, crate::sim::Kind::Punch, crate::sim::Kind::Write, crate::sim::Kind::Sync, crate::sim::Kind::Read]))
+    } else {
+        None
+    };
     let n = ops.len();
     let mut futs: Vec<Option<Pin<Box<dyn Future<Output = TaskOut> + '_>>>> = Vec::new();
     let mut flags: Vec<Arc<Flag>> = Vec::new();
@@ -125,10 +133,18 @@ pub fn run_batch(
             .filter(|&i| eligible(i, &recs) && flags[i].0.load(Ordering::SeqCst))
             .collect();
         let mut pend: Vec<(usize, usize)> = Vec::new();
+        let mut starved: Vec<(usize, usize)> = Vec::new();
         for (fi, f) in files.iter().enumerate() {
             for id in f.pending_ids() {
-                pend.push((fi, id));
+                if starve.is_some() && Some(f.0.borrow().log[id].kind) == starve {
+                    starved.push((fi, id));
+                } else {
+                    pend.push((fi, id));
+                }
             }
+        }
+        if ready.is_empty() && pend.is_empty() {
+            pend.append(&mut starved);
         }
         if recs.iter().all(|r| r.out.is_some()) {
             break;
@@ -227,13 +243,15 @@ pub fn gen_conc_case(seed: u64, id: usize, kind: &str) -> (Case, Vec<Vec<(Op, Op
     let bs = 1u64 << case.bsb;
     let cs = 1u64 << case.cb;
     let vs = case.size / bs * bs;
-    let nb = rng.range(1, 3) as usize;
+    let nb = rng.range(1, 4) as usize;
     let mut batches = Vec::new();
     let mut k = 0u64;
+    // a few hot regions per case: later batches discard / rewrite what earlier ones allocated
+    let hot: Vec<u64> = (0..rng.range(1, 3)).map(|_| rng.below(vs / cs + 1) * cs).collect();
     for _ in 0..nb {
         let nt = rng.range(2, 6) as usize;
         // focus region: same cluster / neighbouring clusters / disjoint
-        let focus = rng.below(vs / cs + 1) * cs;
+        let focus = if rng.chance(2, 3) { *rng.pick(&hot) } else { rng.below(vs / cs + 1) * cs };
         let mode = rng.below(7);
         // guest bytes covered by one L2 slice / one refblock slice worth of data clusters
         let l2_slice_bytes = case.l2.map(|(b, _)| (1u64 << b) / 8).unwrap_or(512) * cs;
@@ -263,13 +281,13 @@ pub fn gen_conc_case(seed: u64, id: usize, kind: &str) -> (Case, Vec<Vec<(Op, Op
             }
             let len = (len / bs * bs).max(bs);
             let r = rng.below(100);
-            let op = if r < 50 {
+            let op = if r < 45 {
                 Op::Write { off, len, tok }
-            } else if r < 75 {
+            } else if r < 65 {
                 Op::Read { off, len }
-            } else if r < 85 {
+            } else if r < 83 {
                 Op::Discard { off: off / cs * cs, len: cs * rng.range(1, 2) }
-            } else if r < 95 {
+            } else if r < 94 {
                 Op::Flush
             } else {
                 Op::Shrink
